@@ -144,6 +144,11 @@ def classify_edge(rec):
     return "I", "internals", "internals"
 
 
+def both_whole(rec):
+    return substring_type(rec.pos[3], rec.pos[4]) == "whole" and \
+        substring_type(rec.pos[5], rec.pos[6]) == "whole"
+
+
 def gap_keys(rec):
     o1 = rec.pos[1][-1]
     o2 = rec.pos[2][-1]
@@ -371,6 +376,9 @@ class ModelDoc:
             else:
                 if rt == "E":
                     _k, k1, k2 = classify_edge(r)
+                    if both_whole(r):
+                        # which side is "the container" is a convention, not specified
+                        k1 = k2 = "containment(both whole)"
                     add(("S", r.pos[1][:-1]), k1, r)
                     add(("S", r.pos[2][:-1]), k2, r)
                 elif rt == "G":
